@@ -100,7 +100,7 @@ func (l *syncListener) OnSyncStepDone(op string, n uint64, took time.Duration) {
 		wantG--
 	}
 	r.mu.Unlock()
-	if !r.drain(wantN, wantG, 20*time.Second) {
+	if !r.drain(wantN, wantG, 8*time.Second) {
 		return
 	}
 	r.mu.Lock()
@@ -120,7 +120,7 @@ var hangs atomic.Int32
 
 func runScenario(sc Scenario) (out *outcome) {
 	out = &outcome{sc: sc, persisted: map[string]int{}}
-	if hangs.Load() >= 3 {
+	if hangs.Load() >= 3 || drainLosses.Load() >= 6 {
 		out.skipped = true
 		return out
 	}
